@@ -394,6 +394,61 @@ def gen_case(rng, kind, thorough):
                 c["aug_cfg"] = {"uniform_noise_p": rng.choice([0.0, 1.0]), "gaussian_noise_p": rng.choice([0.0, 1.0]),
                                 "contrast_p": 1.0, "brightness": 0.2, "brightness_p": rng.choice([0.0, 1.0])}
             c["aug_seed"] = rng.randrange(1 << 30)
+    elif kind == "ds_multi":
+        # label sets over SEVERAL VIDEOS: a different image per video (own size, own ramp offsets), the same
+        # frame indices labelled in every video (mostly), several instances per frame, scale != 1 (mostly),
+        # labelled frames in video-major / interleaved / shuffled order, indices read in a shuffled order
+        c["ds"] = rng.choice(["centered", "centered", "bottomup", "single", "centroid"])
+        nv = rng.choice([2, 2, 3])
+        while True:
+            sizes = [(H, W)] + [((H, W) if rng.random() < 0.5 else gen_hw(rng)) for _ in range(nv - 1)]
+            c["mh"], c["mw"] = gen_max(rng, H), gen_max(rng, W)
+            if rng.random() < 0.35:
+                c["mh"], c["mw"] = None, None
+            c["s"] = rng.choice([x for x in SCALES if x != 1] if rng.random() < 0.8 else SCALES)
+            ok = True
+            for (h_, w_) in sizes:
+                r = py_sizematcher(h_, w_, c["mh"], c["mw"])
+                if r is None or not float_round_agrees(h_, w_, c["mh"], c["mw"]) or \
+                        max(r[2], r[3]) * c["s"] > 640 or min(r[2], r[3]) * c["s"] < 6:
+                    ok = False
+            if ok:
+                break
+        c["stride"] = rng.choice(STRIDES)
+        c["ch"], c["cw"] = rng.choice([(16, 16), (32, 32), (24, 24), (20, 28), (48, 48), (10, 10), (64, 64)])
+        c["anchor"] = rng.choice([0, None])
+        c["conv"] = rng.random() < 0.3
+        c["chunks"] = rng.random() < 0.2
+        c["aug"] = None
+        room_x, room_y = 255 - max(w_ for _, w_ in sizes), 255 - max(h_ for h_, _ in sizes)
+        same_fidx = rng.random() < 0.75
+        c["videos"] = []
+        for v, (h_, w_) in enumerate(sizes):
+            k = c["s"] * py_sizematcher(h_, w_, c["mh"], c["mw"])[4]
+            n_inst = 1 if c["ds"] == "single" else rng.choice([1, 2, 2, 3])
+            insts = []
+            for _ in range(n_inst):
+                a0 = (gen_coord(rng, w_), gen_coord(rng, h_))
+                if c["ds"] == "centered":
+                    rest = clamp_pts(gen_near(rng, a0[0], a0[1], F(c["cw"]) / k, F(c["ch"]) / k, 2), h_, w_)
+                else:
+                    rest = gen_pts(rng, h_, w_, 2, p_nan=0.0)
+                insts.append([a0] + [None if rng.random() < 0.08 else q for q in rest])
+            if c["ds"] != "single" and rng.random() < 0.3:     # an unlabelled (all-NaN) instance among them: no sample
+                insts.insert(rng.randrange(len(insts) + 1), [None, None, None])
+            c["videos"].append({"H": h_, "W": w_, "pts": insts,
+                                "off": (v * (room_x // (nv - 1)), (nv - 1 - v) * (room_y // (nv - 1))),
+                                "fidx": 0 if same_fidx else rng.randrange(0, 4)})
+        nfr = 3 if three_frames(c) else 1
+        t = rng.random()
+        order = [(v, k) for v in range(nv) for k in range(nfr)]            # video-major
+        if t < 0.45:
+            order = [(v, k) for k in range(nfr) for v in range(nv)]        # the same frame of every video in a row
+        elif t < 0.75:
+            rng.shuffle(order)
+        c["order"] = [list(x) for x in order]
+        c["read_seed"] = rng.randrange(1 << 30)
+        c["reread"] = rng.random() < 0.5
     elif kind == "smdp":
         # SizeMatcher DataPipe: pad-only, stateful maxima, raises when an image is larger
         n = rng.randint(1, 3)
@@ -708,6 +763,17 @@ def registration(I, o, imgs_out, src_hw, pts_in, pts_out, f11, f11b, model_A=Non
     the keypoints the code returned (pts_out) and with where the model says the content is."""
     np = I.np
     X, Y, M = as_xym(np, imgs_out)
+    # whatever the output shows with a full valid mask is content of THIS frame: the source position a valid
+    # pixel displays lies inside the frame (a sample cut from another frame's image shows positions outside it,
+    # or is caught by the registration below)
+    vm = M > 0.999
+    if vm.any():
+        xs_, ys_ = X[vm] / unit, Y[vm] / unit
+        lo_x, hi_x, lo_y, hi_y = float(xs_.min()), float(xs_.max()), float(ys_.min()), float(ys_.max())
+        if lo_x < -0.75 or lo_y < -0.75 or hi_x > src_hw[1] - 0.25 or hi_y > src_hw[0] - 0.25:
+            o.b(f"{label}the output image shows content that is not from this {src_hw[1]}x{src_hw[0]} frame: valid pixels "
+                f"display source positions x in [{lo_x:.2f},{hi_x:.2f}], y in [{lo_y:.2f},{hi_y:.2f}]")
+            return None
     fit = fit_content(np, X, Y, M, src_hw, unit)
     if fit is None:
         o.stats["content_unmeasured"] = o.stats.get("content_unmeasured", 0) + 1
@@ -722,7 +788,21 @@ def registration(I, o, imgs_out, src_hw, pts_in, pts_out, f11, f11b, model_A=Non
         h_out, w_out = M.shape
         in_frame = -0.5 <= a[0] <= w_out - 0.5 and -0.5 <= a[1] <= h_out - 0.5
         if u > 0.4 or not in_frame:       # content not in the output image / too far from the measurable interior
-            o.stats["kp_unmeasured"] = o.stats.get("kp_unmeasured", 0) + 1
+            # ... but when the RETURNED keypoint lies among the output pixels the fit was made from, what the
+            # image shows AT the keypoint is measured directly: it has to be the labelled content
+            # (the map is affine: same error |fwd(p) - q|, read at q instead of at the content)
+            at_q = abs(q[0] - fit[4][0]) <= fit[5][0] and abs(q[1] - fit[4][1]) <= fit[5][1]
+            if not (at_q and fit_unc(fit, q) <= 0.4 and math.isfinite(a[0]) and math.isfinite(a[1])):
+                o.stats["kp_unmeasured"] = o.stats.get("kp_unmeasured", 0) + 1
+                continue
+            o.stats["kp_measured_at_keypoint"] = o.stats.get("kp_measured_at_keypoint", 0) + 1
+            u = fit_unc(fit, q)
+            e = max(abs(a[0] - q[0]), abs(a[1] - q[1]))
+            if e - u - slack >= 1.0:
+                which = sel(k) if sel is not None else sel_resize(f11, f11b)(k)
+                o.b(f"{label}the output shows at the returned keypoint {k} ({q[0]:.3f},{q[1]:.3f}) content that is "
+                    f"{e:.3f} output px away from the labelled content of ({float(p[0])},{float(p[1])}), which is located at "
+                    f"({a[0]:.3f},{a[1]:.3f}) (fit residual {fit[3]:.3f})", which)
             continue
         o.stats["kp_measured"] = o.stats.get("kp_measured", 0) + 1
         u += slack
@@ -1548,6 +1628,151 @@ def run_dataset(I, c, ms, o):
         c.setdefault("_aug", []).append((j, mat_fracs(mats[0][0]), pout))
 
 
+# ---- datasets over several videos --------------------------------------------
+def multi_insts(vd):
+    """the instances of a video's frames that produce samples (an all-NaN instance does not)"""
+    return [inst for inst in vd["pts"] if any(p is not None for p in inst)]
+
+
+def multi_sub(c, v):
+    vd = c["videos"][v]
+    return dict(c, kind="ds_centered" if c["ds"] == "centered" else "ds_full", H=vd["H"], W=vd["W"], pts=multi_insts(vd))
+
+
+def multi_labels_desc(c):
+    """(video, frame index, number of non-empty instances) per labelled frame, in label order"""
+    return [(v, c["videos"][v]["fidx"] + k, len(multi_insts(c["videos"][v]))) for v, k in c["order"]]
+
+
+def multi_terms(c):
+    out = []
+    for v in range(len(c["videos"])):
+        cv = multi_sub(c, v)
+        if c["ds"] == "centered":
+            out += [term(cv, (inst, centroid_of(c, inst))) for inst in cv["pts"]]
+        else:
+            out += [term(cv), term(dict(cv, pts=[[centroid_of(c, inst) for inst in cv["pts"]]]))]
+    lab = core.clist(multi_labels_desc(c), lambda f: "(%d, %d, %d)%%nat" % f)
+    out.append(f"CFrameCache {core.cbool(c['ds'] == 'centered')} {lab}")
+    return out
+
+
+def make_labels_multi(I, c):
+    """every video has its own size and its own image content: ramps shifted by the video's offsets
+    (channel 0 = x + ox, channel 1 = y + oy, channel 2 = valid), so that a sample cut from another
+    video's frame is located (ox - ox', oy - oy') * factor output px away from its keypoints"""
+    np = I.np
+    videos, lf_by = [], {}
+    for v, vd in enumerate(c["videos"]):
+        H, W = vd["H"], vd["W"]
+        ox, oy = vd["off"]
+        ys, xs = np.meshgrid(np.arange(H), np.arange(W), indexing="ij")
+        chans = [(xs + ox).astype(np.uint8), (ys + oy).astype(np.uint8), np.full((H, W), 255, np.uint8)]
+        if c["gray"]:
+            frames = [ch[..., None] for ch in chans]
+        elif c.get("conv"):
+            frames = [np.stack([ch] * 3, -1) for ch in chans]
+        else:
+            frames = [np.stack(chans, -1)]
+        video = FakeVideo((vd["fidx"] + len(frames), H, W, frames[0].shape[-1]))
+        videos.append(video)
+        for k, fr in enumerate(frames):
+            lf_by[(v, k)] = FakeLF([FakeInst(np, inst) for inst in vd["pts"]], fr, vd["fidx"] + k, video)
+    lfs = [lf_by[(v, k)] for v, k in c["order"]]
+    return FakeLabels(lfs, videos, len(c["videos"][0]["pts"][0]))
+
+
+def decode_multi(I, c, v, samples, key_img):
+    """the sample images of one item (1 RGB frame or 3 channel frames) with the video's offsets removed"""
+    torch = I.torch
+    ox, oy = c["videos"][v]["off"]
+    imgs = [norm_img(c, s_[key_img]) for s_ in samples]
+    if len(imgs) == 3:
+        return [imgs[0] - ox / 255.0, imgs[1] - oy / 255.0, imgs[2]]
+    return [imgs[0] - torch.tensor([ox / 255.0, oy / 255.0, 0.0]).reshape(1, 3, 1, 1)]
+
+
+def run_dataset_multi(I, c, ms, o):
+    import random as _random
+    import shutil
+    torch = I.torch
+    centered = c["ds"] == "centered"
+    key_img = "instance_image" if centered else "image"
+    key_pts = {"centered": "instance", "centroid": "centroids"}.get(c["ds"], "instances")
+    nfr = 3 if three_frames(c) else 1
+    desc = multi_labels_desc(c)
+    index = [(pos, j) for pos in range(len(desc)) for j in (range(desc[pos][2]) if centered else [0])]
+    # the frame-cache model: which (video, frame) every dataset index is cut from
+    mc = ms[-1]
+    mz = mc[0] if mc is not None else []
+    want = [z for (pos, j) in index for z in (pos, j, desc[pos][0], desc[pos][1])]
+    if list(mz) != want:
+        o.d(f"multi {c['ds']}: frame-cache model {list(mz)[:24]} vs index space x own frame {want[:24]}")
+    ds = build_ds(I, c, make_labels_multi(I, c), False)
+    if len(ds) != len(index):
+        o.b(f"multi {c['ds']}: dataset has {len(ds)} samples, the labels have {len(index)} "
+            f"{'instances' if centered else 'labelled frames'}")
+        return
+    rd = _random.Random(c["read_seed"])
+    reads = list(range(len(index)))
+    rd.shuffle(reads)
+    got = {}
+    for rep in range(2 if c.get("reread") else 1):
+        for i in reads:
+            got[i] = ds[i]
+        rd.shuffle(reads)
+    for i, (pos, j) in enumerate(index):
+        sv, sf = int(got[i]["video_idx"]), int(got[i]["frame_idx"])
+        if (sv, sf) != (desc[pos][0], desc[pos][1]):
+            o.b(f"multi {c['ds']} index {i}: sample says video {sv} frame {sf}, the labelled frame at position {pos} "
+                f"is video {desc[pos][0]} frame {desc[pos][1]}")
+    # registration of every item against ITS OWN frame's image
+    mi = 0
+    for v, vd in enumerate(c["videos"]):
+        cv = multi_sub(c, v)
+        poss = [c["order"].index([v, k]) for k in range(nfr)]
+        if centered:
+            for j, pin in enumerate(multi_insts(vd)):
+                frs = [got[index.index((p_, j))] for p_ in poss]
+                check_centered_output(I, cv, ms[mi], o, decode_multi(I, c, v, frs, key_img), kp_list(frs[0][key_pts]),
+                                      pin, unit=1 / 255, label=f"multi centered video {v} instance {j}: ")
+                mi += 1
+        else:
+            frs = [got[index.index((p_, 0))] for p_ in poss]
+            if c["ds"] == "centroid":
+                pin, m = [centroid_of(c, inst) for inst in multi_insts(vd)], ms[mi + 1]
+            else:
+                pin, m = [p for inst in multi_insts(vd) for p in inst], ms[mi]
+            pout = kp_list(frs[0][key_pts])
+            if any(q is not None for q in pout[len(pin):]):
+                o.b(f"multi {c['ds']} video {v}: keypoints beyond the labelled instances are not missing")
+            check_full_output(I, cv, m, o, decode_multi(I, c, v, frs, key_img), pout[:len(pin)], pin, unit=1 / 255,
+                              label=f"multi {c['ds']} video {v}: ")
+            mi += 2
+    if c.get("chunks"):
+        cdir = core.scratch_dir("sv_c04_chunks_")
+        try:
+            dsc = build_ds(I, c, make_labels_multi(I, c), False, chunks_path=cdir)
+            if len(dsc) != len(index):
+                o.b(f"multi {c['ds']} np_chunks: {len(dsc)} samples, in-memory {len(index)}")
+            else:
+                for i in reversed(range(len(index))):
+                    a, b = dsc[i], got[i]
+                    if tuple(a[key_img].shape) != tuple(b[key_img].shape):
+                        o.b(f"multi {c['ds']} index {i} np_chunks: image {tuple(a[key_img].shape)} vs in-memory {tuple(b[key_img].shape)}")
+                    elif float((a[key_img] - b[key_img]).abs().max()) > 1.01 / 255:
+                        o.b(f"multi {c['ds']} index {i} np_chunks: image differs from the in-memory sample by "
+                            f"{float((a[key_img] - b[key_img]).abs().max()) * 255:.2f} grey levels (uint8 round trip allows 1)")
+                    ka, kb = a[key_pts].to(torch.float32), b[key_pts]
+                    if tuple(ka.shape) != tuple(kb.shape) or not torch.equal(torch.nan_to_num(ka, nan=-7.0),
+                                                                             torch.nan_to_num(kb, nan=-7.0)):
+                        o.b(f"multi {c['ds']} index {i} np_chunks: keypoints differ from the in-memory sample")
+                o.stats["chunks_checked"] = o.stats.get("chunks_checked", 0) + 1
+        finally:
+            shutil.rmtree(cdir, ignore_errors=True)
+    o.stats["multi_video_items"] = o.stats.get("multi_video_items", 0) + len(index)
+
+
 # =============================================================================
 def case_json(c):
     def enc(v):
@@ -1591,6 +1816,8 @@ def model_terms(c):
         return [term(c), term(c2)]
     if k == "ds_centered":
         return [term(c, (inst, centroid_of(c, inst))) for inst in c["pts"]]
+    if k == "ds_multi":
+        return multi_terms(c)
     return []
 
 
@@ -1610,6 +1837,8 @@ def run_case(I, c, ms):
                 RUNNERS[k](I, c, ms[0], o)
         elif k in ("ds_full", "ds_centered"):
             run_dataset(I, c, ms, o)
+        elif k == "ds_multi":
+            run_dataset_multi(I, c, ms, o)
         elif k == "aug":
             c["_fixed"] = I.fixed_f04k
             c["_mat"] = run_aug(I, c, o)
@@ -1656,9 +1885,10 @@ def mix(thorough):
     if thorough:
         return {"sizematch": 2000, "resize": 2000, "pad": 400, "bbox": 300, "crop": 1400, "full": 2000, "centered": 1200,
                 "cropsize": 1000, "aug": 900, "ds_full": 700, "ds_centered": 450, "smdp": 300, "cropper": 500,
-                "aug1": 900}
+                "aug1": 900, "ds_multi": 500}
     return {"sizematch": 120, "resize": 120, "pad": 40, "bbox": 30, "crop": 90, "full": 110, "centered": 70,
-            "cropsize": 80, "aug": 60, "ds_full": 60, "ds_centered": 40, "smdp": 30, "cropper": 40, "aug1": 80}
+            "cropsize": 80, "aug": 60, "ds_full": 60, "ds_centered": 40, "smdp": 30, "cropper": 40, "aug1": 80,
+            "ds_multi": 50}
 
 
 def load_corpus():
